@@ -270,10 +270,24 @@ class World:
             return ("foreign", tkeys.index(X.key(self.handles[k]["tx"])), (k[0] + 1, k[1]), self.fetch(k, rng.choice([r for r in self.routes(k) if r not in ("nplike", "hybrid")])))
         return ("new", rng.randrange(len(targets)))
 
-    def gen(self, allow=("null", "alias", "new", "foreign"), **kw):
+    def gen(self, allow=("null", "alias", "new", "foreign"), like_buf=None, **kw):
         kw.setdefault("capacity_p", getattr(self, "capacity_p", 0.15))
+
+        def lookup(at):         # the object a reference of the `like` value denotes (references stay in the buffer of `like`)
+            k = (like_buf, at)
+            return (self.handles[k]["tx"], self.shadow[k]) if like_buf is not None and k in self.shadow else None
         return X.Gen(self.ns, self.rng, refchoice=lambda tx, b: self.refchoice(tx, b, allow),
-                     lookup=lambda b, at: self.shadow.get((b, at)), **kw)
+                     lookup=lookup, xobj=self.xobj_choice if "foreign" in allow else None, **kw)
+
+    def xobj_choice(self, tx, b):
+        """an existing object of type tx (any buffer) used as the value of a nested part: (expected input form, handle)"""
+        k = X.key(tx)
+        c = [key for key, h in self.handles.items() if X.key(h["tx"]) == k and not _unknown_cap(tx, self.shadow[key]) and not X.has_slack(tx, self.shadow[key])]
+        if not c:
+            return None
+        key = self.rng.choice(c)
+        inp = self.copy_input(tx, self.shadow[key], key[0], key[0] == b)
+        return inp, self.fetch(key, self.rng.choice([r for r in self.routes(key) if r not in ("nplike", "hybrid")]))
 
     # ------------------------------------------------------------------ shadow maintenance (generation only)
     def to_shadow(self, tx, inp, x, b, rootkey, path):
@@ -493,7 +507,7 @@ class World:
         if etx["k"] in ("struct", "arr") and not no_from and rng.random() < 0.35:
             # the value is an object of the same type and skeleton living in some buffer (possibly at the same offset elsewhere)
             sb = rng.randrange(len(self.bufs))
-            val = self.gen(("null", "alias", "new") if sb != b else allow, np_forms=np_forms).value(etx, sb, like=cur)
+            val = self.gen(("null", "alias", "new") if sb != b else allow, np_forms=np_forms, like_buf=b).value(etx, sb, like=cur)
             dest_abs = None
             try:
                 dest_abs = int(self.walk(self.fetch(key, "view"), acc + [last])._offset)
@@ -505,7 +519,7 @@ class World:
             frm = sk
             inp, py = [], self.fetch(sk, rng.choice(["ctor", "view"]))
         else:
-            inp, py = self.gen(allow, np_forms=np_forms).value(etx, b, like=cur)
+            inp, py = self.gen(allow, np_forms=np_forms, like_buf=b).value(etx, b, like=cur)
         exc = ""
         try:
             parent = self.walk(self.fetch(key, route), acc)
